@@ -4,6 +4,7 @@ C02 — entries read back with exactly the property values they were written wit
 import JubakoModel.Model.DirWriter
 import JubakoModel.Lemmas.DirCodec
 import JubakoModel.Lemmas.DirFile
+import JubakoModel.Lemmas.Funcs
 
 namespace Jubako
 
@@ -137,5 +138,20 @@ theorem c02_file_past_end (H : Bytes → Bytes) (vendor uuid freeData : Bytes)
     store, two variants with padding, a content address column with a constant pack id -/
 example := @DirFileExample.input
 example := @DirFileExample.input2
+
+/-! ### Tie to the source: the width rules are the source's bodies -/
+
+/-- **The column-width rules of the writer model are the bodies of `needed_bytes` and
+    `signed_size_key` as translated from the Rust source on every run**: widths are
+    `needed_bytes` of the column maximum, and a signed column's maximum is taken over
+    `signed_size_key` of its values (for every `i64`). -/
+theorem c02_width_rules_are_source_rules :
+    (∀ v, Generated.neededBytes v = some (neededBytes v)) ∧
+    (∀ v : Int, -(2 : Int) ^ 63 ≤ v → v < (2 : Int) ^ 63 → (signedSizeKey v : Int) = Generated.signedSizeKey v) :=
+  ⟨gen_neededBytes, gen_signedSizeKey⟩
+
+/-- non-vacuity: the translated key at the boundaries the signed-width defect (D3) was about -/
+example : Generated.signedSizeKey 127 = 254 ∧ Generated.signedSizeKey 128 = 256 ∧ Generated.signedSizeKey (-128) = 254 ∧
+          Generated.signedSizeKey (-129) = 256 ∧ Generated.signedSizeKey (-9223372036854775808) = 9223372036854775807 := by decide
 
 end Jubako
